@@ -581,6 +581,13 @@ class Real(PackedOps, RandOps):
         path = os.path.join(self.tmpdir(), kv.get('f', 'f') + '.moc.fits')
         m.write_moc(path, clobber=True)
         self.files[kv.get('f', 'f')] = path
+        if kv.get('variant') == 'mocvers':
+            # a MOC from another writer: recognised by MOCVERS only
+            import astropy.io.fits as afits
+            with afits.open(path, mode='update') as hdul:
+                if 'PIXTYPE' in hdul[1].header and 'MOCVERS' in hdul[1].header:
+                    del hdul[1].header['PIXTYPE']
+                    self.variants_applied = getattr(self, 'variants_applied', 0) + 1
         with afits.open(path) as hdul:
             u = np.array(hdul[1].data['UNIQ'], dtype=np.int64)
         return enc_nats(u)
@@ -589,8 +596,17 @@ class Real(PackedOps, RandOps):
         if kv.get('f', 'f') not in self.files:
             raise NoMap(kv.get('f', 'f'))
         path = self.files[kv.get('f', 'f')]
-        self.pool[kv['r']] = HealSparseMap.read(path, nside_coverage=2 ** int(kv['covord']))
+        self.pool[kv['r']] = self.read_maybe_header(kv, path, nside_coverage=2 ** int(kv['covord']))
         return 'ok'
+
+    def read_maybe_header(self, kv, path, **kw):
+        """read(...) or read(..., header=True)[0] (the header must then be the file's)"""
+        if kv.get('header') == '1':
+            r = HealSparseMap.read(path, header=True, **kw)
+            if not (isinstance(r, tuple) and len(r) == 2 and hasattr(r[1], 'keys')):
+                raise AssertionError('read(header=True) did not return (map, header)')
+            return r[0]
+        return HealSparseMap.read(path, **kw)
 
     def op_single(self, pos, kv):
         m = self.m(pos[0])
@@ -632,6 +648,14 @@ class Real(PackedOps, RandOps):
         path = os.path.join(self.tmpdir(), kv.get('f', 'f') + '.hsp.fits')
         m.write(path, clobber=True, nocompress=(kv.get('compress', '1') == '0'))
         self.files[kv.get('f', 'f')] = path
+        if kv.get('variant') == 'nosentinel' and not m.is_rec_array and m.dtype.kind == 'f' \
+                and m._sentinel == hpg.UNSEEN:
+            # a legacy file: no SENTINEL keyword (readers must assume UNSEEN)
+            import astropy.io.fits as afits
+            with afits.open(path, mode='update') as hdul:
+                if 'SENTINEL' in hdul[1].header:
+                    del hdul[1].header['SENTINEL']
+                    self.variants_applied = getattr(self, 'variants_applied', 0) + 1
         return 'ok'
 
     def op_read(self, pos, kv):
@@ -643,7 +667,7 @@ class Real(PackedOps, RandOps):
             kw['pixels'] = [int(t) for t in split_list(kv['pixels'])]
             if kv.get('idtype', 'list') != 'list':
                 kw['pixels'] = np.array(kw['pixels'], dtype=DTYPES[kv['idtype']])
-        self.pool[kv['r']] = HealSparseMap.read(path, **kw)
+        self.pool[kv['r']] = self.read_maybe_header(kv, path, **kw)
         return 'ok'
 
     def op_covread(self, pos, kv):
@@ -750,6 +774,28 @@ class Real(PackedOps, RandOps):
         path = os.path.join(self.tmpdir(), kv.get('f', 'f') + '.hpx.fits')
         m.write(path, clobber=True, format='healpix')
         self.files[kv.get('f', 'f')] = path
+        var = kv.get('variant', '').split('+')
+        # (boolean / int8 columns are FITS logicals in astropy, unsigned ones use TZERO: not re-written here)
+        if var != [''] and m.dtype.kind in 'fi' and m.dtype.itemsize > 1:
+            # the same partial map as a foreign writer would store it
+            import astropy.io.fits as afits
+            with afits.open(path) as hdul:
+                hdr = hdul[1].header.copy()
+                tbl = np.array(hdul[1].data)
+            applied = False
+            if 'ring' in var and hdr.get('INDXSCHM', '').rstrip() == 'EXPLICIT' and hdr.get('ORDERING') == 'NESTED':
+                applied = True
+                tbl = tbl.copy()
+                tbl['PIXEL'] = hpg.nest_to_ring(hdr['NSIDE'], np.array(tbl['PIXEL'], dtype=np.int64))
+                hdr['ORDERING'] = 'RING'
+                self.variants_applied = getattr(self, 'variants_applied', 0) + 1
+            if 'nobad' in var and 'BAD_DATA' in hdr and m.dtype.kind == 'f' and m._sentinel == hpg.UNSEEN:
+                del hdr['BAD_DATA']
+                applied = True
+                self.variants_applied = getattr(self, 'variants_applied', 0) + 1
+            if applied:
+                hdu = afits.BinTableHDU(tbl, header=hdr)
+                hdu.writeto(path, overwrite=True)
         return 'ok'
 
     def op_hpximplicit(self, pos, kv):
@@ -773,7 +819,8 @@ class Real(PackedOps, RandOps):
     def op_hpxread(self, pos, kv):
         if kv.get('f', 'f') not in self.files:
             raise NoMap(kv.get('f', 'f'))
-        self.pool[kv['r']] = HealSparseMap.read(self.files[kv.get('f', 'f')], nside_coverage=2 ** int(kv['covord']))
+        self.pool[kv['r']] = self.read_maybe_header(kv, self.files[kv.get('f', 'f')],
+                                                    nside_coverage=2 ** int(kv['covord']))
         return 'ok'
 
     # ---- geometry ---------------------------------------------------------------------
